@@ -65,10 +65,26 @@ class CoqLock:
         self.f.close()
 
 
+COQ_DIRS = ["Base", "NumPy", "Engine", "Analysis", "State", "IR", "Gen", "Proofs", "Props"]
+COQ_ARGS = "-arg -w -arg -notation-overridden,-deprecated-hint-without-locality,-deprecated-instance-without-locality,-deprecated-syntactic-definition,-ambiguous-paths"
+
+
+def write_coqproject():
+    """_CoqProject is derived from the files present (every .v under the library directories)."""
+    files = []
+    for d in COQ_DIRS:
+        for root, _, fs in sorted(os.walk(os.path.join(COQ, d))):
+            for f in sorted(fs):
+                if f.endswith(".v") and not f.startswith("."):
+                    files.append(os.path.relpath(os.path.join(root, f), COQ))
+    text = "-Q . %s\n%s\n%s\n" % (LOGICAL, COQ_ARGS, "\n".join(files))
+    return write_if_changed(os.path.join(COQ, "_CoqProject"), text)
+
+
 def ensure_makefile():
     mk = os.path.join(COQ, "Makefile")
-    proj = os.path.join(COQ, "_CoqProject")
-    if not os.path.exists(mk) or os.path.getmtime(mk) < os.path.getmtime(proj):
+    changed = write_coqproject()
+    if changed or not os.path.exists(mk):
         sh("coq_makefile -f _CoqProject -o Makefile", cwd=COQ)
 
 
